@@ -917,7 +917,7 @@ class Bag(DaskMethodsMixin):
         if initial is not no_default:
             return self.reduction(
                 curry(_reduce, binop, initial=initial),
-                curry(_reduce, combine),
+                curry(_reduce, combine, default=initial),
                 split_every=split_every,
                 out_type=out_type,
             )
@@ -2370,11 +2370,19 @@ def map_partitions(func, *args, **kwargs):
     return return_type(graph, name, npartitions)
 
 
-def _reduce(binop, sequence, initial=no_default):
+def _reduce(binop, sequence, initial=no_default, default=no_default):
     if initial is not no_default:
         return reduce(binop, sequence, initial)
-    else:
-        return reduce(binop, sequence)
+    if default is not no_default:
+        # ``default`` is only the result for an empty sequence, it does not
+        # take part in the reduction otherwise
+        sequence = iter(sequence)
+        try:
+            first = next(sequence)
+        except StopIteration:
+            return default
+        return reduce(binop, sequence, first)
+    return reduce(binop, sequence)
 
 
 def make_group(k, stage):
